@@ -80,7 +80,7 @@ def monitor(g, specs, root, res, sched):
     return nontrivial
 
 
-def make(n, kinds, jobs_hi, cache=True, orders="rev", signals=False):
+def make(n, kinds, jobs_hi, cache=True, orders="rev", signals=False, all_ok=False):
     def fn(g):
         specs = graphs.sym_graph(g, n, kinds, orders=orders)
         root = n - 1
@@ -89,7 +89,7 @@ def make(n, kinds, jobs_hi, cache=True, orders="rev", signals=False):
         if cache and not again:
             cached = {j for j, s in enumerate(specs) if s.kind == "run_experiment" and g.flag("c%d" % j)}
         jobs = g.fresh_int("jobs", 1, jobs_hi, opaque=False)
-        sched = graphs.SymSched(g, signals=signals, on_spawn=output_writer)
+        sched = graphs.SymSched(g, signals=signals, on_spawn=output_writer, all_ok=all_ok)
         res = graphs.run_graph(g, specs, root, again=again, jobs=jobs, cached=cached, sched=sched)
         try:
             if isinstance(res.status, str):
@@ -103,6 +103,9 @@ def make(n, kinds, jobs_hi, cache=True, orders="rev", signals=False):
             info = hrun.parse_run_output(res)
             if info["skipping"]:
                 g.goal("a failed task with a skipped dependent")
+            if n >= 4 and specs[2].kind == "group" and 1 in cached and specs[1].dep_idx == [0] and specs[2].dep_idx == [1] \
+                    and sorted(specs[3].dep_idx) == [0, 2] and any(p.name == "t0" for p in k.tasks()):
+                g.goal("direct dependency also reachable through a group over a cached task")
             if any(s.kind == "combine" and s.dep_idx for s in specs) and any(e[0] == "symlink" for e in k.events):
                 g.goal("combine step with a linked dependency output")
             if any(len(graphs.closure(specs, j)) >= 2 and len(specs[j].dep_idx) >= 2 for j in range(n)) and k.tasks():
@@ -130,6 +133,11 @@ def spaces(tier):
                     "ONE real _wait_for_next_inflight_op step from an arbitrary valid executor state (1..4 slots, any in-flight set): "
                     "a dependent is enqueued if and only if all of its dependencies have finished - for graphs of any size",
                     depth=6, goals=["inductive step completes an operation"]))
+    sp.append(Space("n4-group-over-cached", make(4, graphs.ALL_KINDS, 2, all_ok=True),
+                    "N=4 with t0 a command, t1 an experiment (cache bit) and t2 a group: every edge set, listing order, kind of t3, par bits, "
+                    "cache bits, jobs 1..2, completion orders, all children exit 0 (a dependency reachable both directly and "
+                    "through a group over a cached task)", depth=10, preset={"k0": 1, "k1": 0, "k2": 2, "again": False},
+                    goals=["direct dependency also reachable through a group over a cached task"]))
     if tier == "thorough":
         sp.append(Space("n4-subprocess-j3", make(4, ("run_experiment", "run_command"), 3, cache=False, orders="rev"),
                         "N=4, kinds {run_experiment, run_command}, --jobs 1..3, --again bit, no cache bits, "
